@@ -15,8 +15,8 @@ open Gold Gold.Peg
 def mk (kind ident : String) (rng : Range) (kids : List Tree) (attrs : List String := []) (sel : Option Range := none) : Tree :=
   .node kind ident rng (sel.getD rng) attrs kids
 
-/-- `AstTerminal::new(token)` -/
-def terminal (t : Tree) : Tree := mk "terminal" t.ident t.rng []
+/-- `AstTerminal::new(token)`; attrs: `tok=<TokenType>` of the token (read by the lint model) -/
+def terminal (t : Tree) : Tree := mk "terminal" t.ident t.rng [] ["tok=" ++ t.kind]
 
 def optList (t : Tree) : List Tree := if t.isNone then [] else [t]
 
@@ -135,8 +135,8 @@ def untilStop (ks : List Kind) (self : Nat) : G :=
       (.ifTok ks (.eps Tree.none)
         (.map loopCons (.seq (.recover .skipTok (.ref nStatement)) (.ref self)))))
 
-/-- `AstBinaryOp` -/
-def binNode (l op r : Tree) : Tree := mk "bin_op" op.ident (Range.span l.rng r.rng) [l, r]
+/-- `AstBinaryOp`; attrs: `op=<TokenType>` of the operator token -/
+def binNode (l op r : Tree) : Tree := mk "bin_op" op.ident (Range.span l.rng r.rng) [l, r] ["op=" ++ op.kind]
 
 /-- right operand of a dangling `.`: `AstEmpty` -/
 def danglingRight (op c : Tree) : Tree :=
@@ -502,13 +502,13 @@ def gBracketClosure : G :=
 def gUnaryPre : G :=
   .map (fun v =>
       let op := v.nth 0; let e := v.nth 1
-      mk "unary_op" op.ident (Range.span op.rng e.rng) [e])
+      mk "unary_op" op.ident (Range.span op.rng e.rng) [e] ["op=" ++ op.kind])
     (seqL [toks [Kind.Not, Kind.BNot, Kind.AddressOf, Kind.Inherited, Kind.Minus], .ref nPrimary])
 
 def gUnaryPost : G :=
   .map (fun v =>
       let e := v.nth 0; let op := v.nth 1
-      mk "unary_op" op.ident (Range.span e.rng op.rng) [e])
+      mk "unary_op" op.ident (Range.span e.rng op.rng) [e] ["op=" ++ op.kind])
     (seqL [.ref nDotOps, toks [Kind.Increment, Kind.Decrement]])
 
 def gPrimaryBody : G := altL [gBracketClosure, .alt gUnaryPre gUnaryPost, .ref nDotOps, gLiterals]
@@ -664,7 +664,7 @@ def gFor : G :=
       let ft := v.nth 0; let l := v.nth 5; let e := loopEnd l
       let step := (v.nth 4).nth 1
       mk "for" "for" (Range.span ft.rng (if e.isSome then e.rng else ft.rng))
-        ([v.nth 3] ++ optList step ++ loopItems l))
+        ([v.nth 3] ++ optList step ++ loopItems l) ["var", (v.nth 1).ident])
     (seqL [.tok Kind.For, .tok Kind.Identifier, .tok Kind.Equals, gForRange,
            .dep (.opt (.tok Kind.Step)) Tree.isSome (.opt (.ref nExpr)), .ref nUntilEndFor])
 
